@@ -15,6 +15,13 @@ E  trees in the ESP-IDF idiom: IDF_TARGET (string, default from the environment)
                  prints a symbol as a link without folding it: they `select` / `set` documented options (forward and
                  "forced by" rows), are the default VALUE of another option and the VALUE of another option's `set`
      conds       `range .. if E`, `default .. if E`, `select T if E`, `set T=v if E` on options that have their own `depends on`
+     reverse     `select T if E` / `set T=v if E` / `set T=v if !E` / `set default T=v if E` where the TARGET T itself `depends on E`
+                 (sources with a user dependency, without dependencies, and -- the mirror image -- a source that `depends on E`
+                 acting on a target that depends on a user option): the "forcefully enabled by" / "set by .. to .." rows
+   TWICE-DEFINED options as operands of E (both tiers): a prompted user option that another file defines a second time --
+   without a prompt (`default y if <target>` / `default y if <user option>`, before or after the prompt) or with a prompt inside
+   a menu that is hidden for the target (before or after) -- and, as the control, one whose two definitions both depend on the
+   same target;
    plus fixed programs (excluded menu names, nested menus, multi-level breadcrumbs); targets chipa and chipb; a rename file
    (deprecated section);
    plus the SPECIAL MENU NAMES family: every name the generator never writes a section for (read from the EXCLUDE*/SKIP*/
@@ -31,12 +38,19 @@ E  trees in the ESP-IDF idiom: IDF_TARGET (string, default from the environment)
    (so every "Contains:" list, every "Found in:" breadcrumb of an option below a special menu, every link to / from an option
    inside one, and every anchor composed from a special name is produced), and the special name as the prompt of something that
    is NOT a menu (menuconfig, bool/int config, choice, comment) at every position.
+   plus the SEVERAL CHOICES family: two and three choices in one tree, each unnamed or named (every pattern with at least one
+   unnamed choice), each with its own target visibility (none | depends on chipa / chipb | depends on a user option | inside a
+   menu / an `if` that depends on chipa / chipb), each followed by an option that refers to a member; and a menu whose TITLE
+   equals the NAME of an option with a different target visibility (both orders);
    Driver: kconfgen.core.write_docs(kconfig, file) -- the function behind `kconfgen --output docs` -- with IDF_TARGET set.
 O  (a) every option/choice with a prompt that the real evaluator reports visible in SOME assignment of the user-settable
        options (fresh Kconfig per assignment, Symbol.set_value, .visibility) has its anchor `.. _CONFIG_<name>:` in the text;
    (b) gen_kconfig_doc._prepare_cond is wrapped during generation to record (condition, stripped direct deps, shown);
        for every assignment  value(condition) AND value(deps) == value(shown) AND value(deps)  with esp_kconfiglib.expr_value
-       on a fresh instance (shown None == n: the generator states that the row never applies);
+       on a fresh instance (shown None == n: the generator states that the row never applies); `deps` are NOT taken from the
+       call: they are the dependencies of the option the printed row is about -- the documented option for its own range /
+       default / "forcefully enables" / "sets" rows, the SOURCE for a "forcefully enabled by <source>" / "set by <source>" row
+       (select / set do not look at the dependencies of their target);
    (c) every :ref: target in the text is defined by a `.. _anchor:` in the same text.
    In the special-name family (a) says that the options inside a special menu (and options that merely carry its name as their
    prompt) are documented like any other, (c) that nothing links to the section that is never written.
@@ -68,8 +82,12 @@ RULE = (
     "(S,\"v1\") in thorough]} x all six relations + 15 bool/string pairs x {=,!=}; depth<=1: a, !a, a&&b, a||b (all "
     "ordered pairs of distinct atoms), all of R; depth 2 quick: !r for all r, {r op c, c op r} for 14 key relations x 4 partners, "
     "!(a op b), (a op b) op c over small atom sets; depth 2 thorough: x op y for all ordered pairs with one side in A0+!A0+R and "
-    "the other in A0+!A0+key relations+{MIR_B, MIR_I<3} (A0 without M on this side), !(x) for every depth-1 x. Each E x 3 program groups x targets {chipa,chipb} x all "
+    "the other in A0+!A0+key relations+{MIR_B, MIR_I<3} (A0 without M on this side), !(x) for every depth-1 x. Each E x 4 program groups x targets {chipa,chipb} x all "
     "assignments of the user-settable options that E (transitively) mentions (bool {n,y}, N {1,2,3,4}, S {v1,chipa,chipb,zz}; <=64). "
+    "twice-defined family (both tiers): t, !t, t=y, t!=U2, {t op c, c op t} x partners {U2,IDF_TARGET_CHIPA,!IDF_TARGET_CHIPB,SOC_UNDEF}, "
+    "3 negated/mixed forms for t in {TW_PL,TW_LP,TW_TH,TW_HT,TW_UD,TW_HH}, ordered pairs of the first 4. Every E is also placed in the "
+    "'reverse' group (target of select/set/set default depends on E). several-choices family: 8 visibilities ^ 2 x 3 naming patterns + "
+    "4 visibilities ^ 3 x 7 naming patterns, + 3 x 2 menu-titled-like-an-option programs. "
     "special menu names (both tiers): names = string-list constants EXCLUDE*/SKIP*/IGNORE*/HIDDEN* of gen_kconfig_doc + the 2 documented "
     "ESP-IDF wrapper names + near-miss control names (1 in quick, 3 in thorough); full product names x 10 positions x 4 carriers x 9 "
     "contents x 5 sibling layouts, plus names x 10 positions x 5 non-menu items carrying the name as prompt x 2 sibling layouts; "
@@ -85,7 +103,12 @@ ASSUMPTIONS = [
     "a menu the generator excludes by name may stay without a section (the property speaks of options); its options must be "
     "documented and nothing may link to the missing section. A menuconfig symbol / choice whose PROMPT equals such a name is an option",
     "special names containing a double quote or a newline cannot be written as a Kconfig prompt by the renderer and are not generated",
-    "(b) is checked modulo the stripped direct dependencies, as the generator prints them once under 'Symbol can be set when'",
+    "(b) is checked modulo the direct dependencies of the option the row is about (the documented option, or the source of a "
+    "'forcefully enabled by' / 'set by' row), as the generator prints them once under that option's 'Symbol can be set when'; where two "
+    "rows share one condition object (an unconditional row's condition IS the dependency symbol) any of their readings is accepted",
+    "a choice without a name has no anchor of its own to demand ((a) is checked on its members, which are options with a prompt); "
+    "that the generator gives every unnamed choice the same anchor `CONFIG_None` is outside the statement (no :ref: points at it)",
+    "`set default` produces no row in the documentation; it is generated so that its presence does not disturb the other rows",
     "ordering relations (<,<=,>,>=) are generated only for numeric operand pairs (and one string pair in thorough)",
     "mirror symbols take a plain symbol, its negation or one conjunction as default value, with no or a target-constant condition; "
     "the user symbol's default (U1=n, U2=y, N=4, S=\"d\") is the 'current value' during generation, so both a dependency that is false "
@@ -104,7 +127,8 @@ TARGETS = ("chipa", "chipb")
 # --------------------------------------------------------------------------------------------------
 
 ORDER = ["IDF_TARGET", "IDF_TARGET_CHIPA", "IDF_TARGET_CHIPB", "SOC_CAP", "SOC_NUM", "FORCED", "U1", "U2", "N", "S", "DERIV", "UG", "GATED",
-         "MIR_B", "MIR_NOT", "MIR_E", "MIR_TC", "MIR_PG", "MIR_2", "MIR_T", "MIR_I", "MIR_NI", "MIR_S"]
+         "MIR_B", "MIR_NOT", "MIR_E", "MIR_TC", "MIR_PG", "MIR_2", "MIR_T", "MIR_I", "MIR_NI", "MIR_S",
+         "TW_PL", "TW_LP", "TW_TH", "TW_HT", "TW_UD", "TW_HH"]
 NEEDS = {
     "SOC_CAP": ["IDF_TARGET_CHIPA"],
     "SOC_NUM": ["IDF_TARGET_CHIPA", "IDF_TARGET_CHIPB"],
@@ -121,6 +145,12 @@ NEEDS = {
     "MIR_I": ["N"],
     "MIR_NI": ["SOC_NUM"],
     "MIR_S": ["S"],
+    "TW_PL": ["IDF_TARGET_CHIPB"],
+    "TW_LP": ["IDF_TARGET_CHIPA"],
+    "TW_TH": ["IDF_TARGET_CHIPB"],
+    "TW_HT": ["IDF_TARGET_CHIPB"],
+    "TW_UD": ["U2"],
+    "TW_HH": ["IDF_TARGET_CHIPB"],
 }
 KIND = {
     "IDF_TARGET": "target_string",
@@ -148,6 +178,13 @@ KIND = {
     "MIR_I": "mirror_int",
     "MIR_NI": "mirror_of_const_int",
     "MIR_S": "mirror_string",
+    # options defined at two places, the prompt the user reaches being on ONE of the definitions only
+    "TW_PL": "twice_prompted_then_promptless",
+    "TW_LP": "twice_promptless_then_prompted",
+    "TW_TH": "twice_prompted_then_target_hidden_prompt",
+    "TW_HT": "twice_target_hidden_prompt_then_prompted",
+    "TW_UD": "twice_prompted_then_promptless_user_default",
+    "TW_HH": "twice_both_prompts_target_gated",
 }
 DOMAIN = {
     "U1": ["n", "y"],
@@ -156,6 +193,12 @@ DOMAIN = {
     "UG": ["n", "y"],
     "GATED": ["n", "y"],
     "MIR_PG": ["n", "y"],
+    "TW_PL": ["n", "y"],
+    "TW_LP": ["n", "y"],
+    "TW_TH": ["n", "y"],
+    "TW_HT": ["n", "y"],
+    "TW_UD": ["n", "y"],
+    "TW_HH": ["n", "y"],
     "N": ["1", "2", "3", "4"],
     "S": ["v1", "chipa", "chipb", "zz"],
     # user-settable options of the special-menu-name family (see special_programs)
@@ -218,6 +261,32 @@ def base_cfg(name: str, present: List[str]) -> Cfg:
     if name == "MIR_S":
         return Cfg(name, "string", defaults=[(S("S"), None)])
     raise KeyError(name)
+
+
+def base_cfgs(name: str, present: List[str]) -> List[Cfg]:
+    """All definitions of a base symbol, in file order.  TW_*: the option of one component that a board / SoC file defines a
+    SECOND time to add a target-specific default (no prompt) or a target-specific prompt."""
+    cb, ca = S("IDF_TARGET_CHIPB"), S("IDF_TARGET_CHIPA")
+    if name == "TW_PL":
+        return [Cfg(name, "bool", prompt="defined twice: prompt, then a promptless default"), Cfg(name, "bool", defaults=[(L("y"), cb)])]
+    if name == "TW_LP":
+        return [Cfg(name, "bool", defaults=[(L("y"), ca)]), Cfg(name, "bool", prompt="defined twice: promptless default, then the prompt")]
+    if name == "TW_TH":
+        return [Cfg(name, "bool", prompt="defined twice: prompt, then a prompt in a chipb-only menu"),
+                Menu(title="Board file (chip B), after", depends=[cb], children=[Cfg(name, "bool", prompt="defined twice (chipb part)", defaults=[(L("y"), None)])])]
+    if name == "TW_HT":
+        return [Menu(title="Board file (chip B), before", depends=[cb], children=[Cfg(name, "bool", prompt="defined twice (chipb part)", defaults=[(L("y"), None)])]),
+                Cfg(name, "bool", prompt="defined twice: prompt in a chipb-only menu, then the prompt")]
+    if name == "TW_UD":
+        return [Cfg(name, "bool", prompt="defined twice: prompt, then a promptless default from a user option"), Cfg(name, "bool", defaults=[(L("y"), S("U2"))])]
+    if name == "TW_HH":
+        # control: both definitions depend on the same target -> really fixed (n) on the other target
+        return [Cfg(name, "bool", prompt="defined twice, both chipb only", depends=[cb]), Cfg(name, "bool", prompt="defined twice, both chipb only (2)", depends=[cb], defaults=[(L("y"), None)])]
+    return [base_cfg(name, present)]
+
+
+def base_list(present: List[str]) -> List[Any]:
+    return [c for n in present for c in base_cfgs(n, present)]
 
 
 def closure(names: List[str]) -> List[str]:
@@ -337,6 +406,23 @@ def mirror_expressions() -> List[tuple]:
     return out
 
 
+TWICE_ATOMS = [S(n) for n in ("TW_PL", "TW_LP", "TW_TH", "TW_HT", "TW_UD", "TW_HH")]
+
+
+def twice_expressions() -> List[tuple]:
+    """Both tiers: options defined at two places with the reachable prompt on one definition only, as a dependency."""
+    out: List[tuple] = list(TWICE_ATOMS) + [Not(a) for a in TWICE_ATOMS]
+    partners = [S("U2"), S("IDF_TARGET_CHIPA"), Not(S("IDF_TARGET_CHIPB")), S("SOC_UNDEF")]
+    for t in TWICE_ATOMS:
+        out += [Rel("=", t, L("y")), Rel("!=", t, S("U2"))]
+        for c in partners:
+            out += [And(t, c), And(c, t), Or(t, c), Or(c, t)]
+        out += [Not(And(t, S("U2"))), And(Not(t), S("U2")), Or(Not(t), S("IDF_TARGET_CHIPB"))]
+    for a, b in itertools.permutations(TWICE_ATOMS[:4], 2):
+        out += [And(a, b), Or(a, b)]
+    return out
+
+
 def relations(tier: str) -> List[tuple]:
     out = []
     seen = set()
@@ -400,6 +486,7 @@ def expressions(tier: str) -> List[tuple]:
                 continue
             out += [And(And(a, b), c), Or(And(a, b), c), And(Or(a, b), c), Or(Or(a, b), c)]
     out += mirror_expressions()
+    out += twice_expressions()
     # precedence / parenthesisation probes over three USER-SETTABLE operands (right- and left-nested, mixed operators)
     rel = KEY_RELS[0]
     for a, b, c in list(itertools.permutations((S("U1"), S("U2"), S("UG")), 3)) + [(S("U1"), S("U2"), rel), (rel, S("U1"), S("U2")), (S("U1"), rel, S("U2"))]:
@@ -417,7 +504,7 @@ def expressions(tier: str) -> List[tuple]:
 # programs
 # --------------------------------------------------------------------------------------------------
 
-GROUPS = ("deps", "containers", "conds")
+GROUPS = ("deps", "containers", "conds", "reverse")
 
 
 def build_program(group: str, E: Optional[tuple]) -> Tuple[Program, List[str], List[str]]:
@@ -509,10 +596,33 @@ def build_program(group: str, E: Optional[tuple]) -> Tuple[Program, List[str], L
         kids.append(Cfg("P_D", "string", prompt="probe: conditional default, no depends", defaults=[(L('"a"'), E), (S("S"), Not(E)), (L('"c"'), None)]))
         extra.append("S")
         renames = ["CONFIG_OLD_P_R CONFIG_P_R", "CONFIG_OLD_T_PL CONFIG_T_PL"]
+    elif group == "reverse":
+        # select / set / set default whose condition mentions the TARGET option's own dependency (and, as the control, the
+        # source's): the rows under "Following symbols affect the value of this symbol" are conditions of the SOURCE
+        extra = ["U2"]
+        kids.append(Cfg("R_TI", "int", prompt="target: depends on E, set if E", depends=[E], defaults=[(L("0"), None)]))
+        kids.append(Cfg("R_TN", "int", prompt="target: depends on E, set if !E", depends=[E], defaults=[(L("0"), None)]))
+        kids.append(Cfg("R_TB", "bool", prompt="target: depends on E, selected if E", depends=[E]))
+        kids.append(Cfg("R_TU", "int", prompt="target: depends on U2, set by a source that depends on E", depends=[S("U2")], defaults=[(L("0"), None)]))
+        kids.append(Cfg("R_TW", "int", prompt="target: depends on E, weakly set", depends=[E], defaults=[(L("0"), None)]))
+        kids.append(
+            Cfg(
+                "R_SRC",
+                "bool",
+                prompt="source: depends on a user option",
+                depends=[S("U2")],
+                selects=[("R_TB", E)],
+                sets=[("R_TI", L("9"), E), ("R_TN", L("8"), Not(E)), ("R_TI", L("7"), None)],
+                wsets=[("R_TW", L("6"), E)],
+            )
+        )
+        kids.append(Cfg("R_SRC2", "bool", prompt="source: no dependencies", sets=[("R_TI", L("5"), E), ("R_TN", L("4"), Not(E))], selects=[("R_TB", E)]))
+        kids.append(Cfg("R_SRC3", "bool", prompt="source: depends on E", depends=[E], sets=[("R_TU", L("3"), E), ("R_TU", L("2"), S("U2")), ("R_TI", L("1"), S("U2"))], selects=[("R_TB", S("U2"))]))
+        renames = ["CONFIG_OLD_R_TI CONFIG_R_TI"]
     else:
         raise ValueError(group)
     present = closure(used + extra)
-    base = [base_cfg(n, present) for n in present]
+    base = base_list(present)
     variables = [n for n in present if n in DOMAIN and (n in closure(used) or n in extra)]
     # S is only a value in the conds group (default S): no need to enumerate it unless E mentions it
     if group == "conds" and "S" not in closure(used):
@@ -737,10 +847,63 @@ def special_programs(tier: str) -> List[Tuple[str, str, Program, List[str], List
     return out
 
 
+# --------------------------------------------------------------------------------------------------
+# several choices without a name (and items that share a name / title) with different target visibility
+# --------------------------------------------------------------------------------------------------
+
+SLOT_VIS = ("plain", "dep_chipa", "dep_chipb", "dep_user", "in_menu_chipa", "in_menu_chipb", "in_if_chipa", "in_if_chipb")
+SLOT_VIS3 = ("plain", "dep_chipa", "dep_chipb", "dep_user")
+
+
+def _choice_slot(idx: int, vis: str, named: bool) -> List[Any]:
+    tag = f"Q{idx}"
+    members = [Cfg(f"{tag}_A", "bool", prompt=f"member a of choice {idx}", help=f"Help of {tag}_A."), Cfg(f"{tag}_B", "bool", prompt=f"member b of choice {idx}")]
+    ch = Choice(name=f"{tag}_CH" if named else None, prompt=f"choice {idx} ({vis})", defaults=[(f"{tag}_A", None)], children=members)
+    after = Cfg(f"{tag}_REF", "bool", prompt=f"refers to a member of choice {idx}", defaults=[(L("y"), S(f"{tag}_B"))])
+    if vis == "plain":
+        return [ch, after]
+    if vis in ("dep_chipa", "dep_chipb"):
+        ch.depends = [S("IDF_TARGET_CHIPA" if vis.endswith("a") else "IDF_TARGET_CHIPB")]
+        return [ch, after]
+    if vis == "dep_user":
+        ch.depends = [S("U1")]
+        return [ch, after]
+    if vis in ("in_menu_chipa", "in_menu_chipb"):
+        return [Menu(title=f"Menu of choice {idx}", depends=[S("IDF_TARGET_CHIPA" if vis.endswith("a") else "IDF_TARGET_CHIPB")], children=[ch]), after]
+    if vis in ("in_if_chipa", "in_if_chipb"):
+        return [If(cond=S("IDF_TARGET_CHIPA" if vis.endswith("a") else "IDF_TARGET_CHIPB"), children=[ch]), after]
+    raise ValueError(vis)
+
+
+def visibility_programs() -> List[Tuple[str, str, Program, List[str], List[str]]]:
+    """Two and three choices in one tree, each with its own target visibility, unnamed or named in every pattern that has at
+    least one unnamed choice; plus a menu whose title equals the name of an option of different target visibility."""
+    names = closure(["U1"])
+    out = []
+    for n, alphabet in ((2, SLOT_VIS), (3, SLOT_VIS3)):
+        for vis in itertools.product(alphabet, repeat=n):
+            for named in itertools.product((False, True), repeat=n):
+                if all(named):
+                    continue
+                kids: List[Any] = []
+                for i, (v, nm) in enumerate(zip(vis, named)):
+                    kids += _choice_slot(i + 1, v, nm)
+                desc = " ".join(f"{'named' if nm else 'unnamed'}:{v}" for v, nm in zip(vis, named))
+                out.append(("choices_without_name", desc, Program(title="Main menu", children=base_list(names) + kids), ["U1"], []))
+    for opt_dep, order in itertools.product(("IDF_TARGET_CHIPA", "IDF_TARGET_CHIPB", "U1"), ("option_first", "menu_first")):
+        opt = Cfg("ZED", "bool", prompt="option whose name is also a menu title", depends=[S(opt_dep)])
+        menu = Menu(title="ZED", children=[Cfg("Z_IN", "bool", prompt="option in the menu titled like an option"), Menu(title="Sub", children=[Cfg("Z_IN2", "int", prompt="deeper", defaults=[(L("1"), None)])])])
+        kids = [opt, menu] if order == "option_first" else [menu, opt]
+        out.append(("menu_titled_like_option", f"option depends on {opt_dep}, {order}", Program(title="Main menu", children=base_list(names) + kids), ["U1"], []))
+    return out
+
+
 def items(tier: str, seed: int):
     out = []
     for name, prog, variables, renames in fixed_programs():
         out.append({"group": name, "estr": "-", "files": kgen.render(prog), "vars": variables, "renames": renames})
+    for group, desc, prog, variables, renames in visibility_programs():
+        out.append({"group": group, "estr": desc, "files": kgen.render(prog), "vars": variables, "renames": renames})
     for group, desc, prog, variables, renames in special_programs(tier):
         out.append({"group": group, "estr": desc, "files": kgen.render(prog), "vars": variables, "renames": renames})
     for E in expressions(tier):
@@ -799,6 +962,7 @@ class Generated:
         self.inst = impl.Inst(item["files"], env={"IDF_TARGET": target}, renames=["\n".join(item["renames"]) + "\n"] if item["renames"] else None)
         self.k = self.inst.k
         self.records: List[Tuple[Any, Any, Any, str]] = []
+        self.expected: List[Any] = []  # per record: the dependencies the row may be read modulo (see expected_deps)
         self.memo: Dict[Any, Any] = {}
         self.visibility = None
         self.current: List[Any] = [None]
@@ -807,7 +971,9 @@ class Generated:
 
         def prepare(cond, visibility, kconfig, direct_deps=None):
             shown = orig_prepare(cond, visibility, kconfig, direct_deps=direct_deps)
-            me.records.append((cond, direct_deps, shown, me.where(cond)))
+            where = me.where(cond)
+            me.records.append((cond, direct_deps, shown, where))
+            me.expected.append(me.expected_deps(cond, direct_deps, where))
             return shown
 
         def write_docs(kconfig, visibility, filename):
@@ -828,6 +994,29 @@ class Generated:
         with open(out) as f:
             self.text = f.read()
         os.unlink(out)
+
+    def expected_deps(self, cond, passed, where: str):
+        """The dependencies a shown row may be read modulo, decided by WHERE the row is printed and not by what the generator
+        stripped: a row of the option's own section (range / default / forcefully enables / sets) is read next to that option's
+        'Symbol can be set when', a row 'forcefully enabled by SRC' / 'set by SRC to v' is a statement about SRC and is read
+        modulo SRC's dependencies (select / set do not look at the dependencies of their target).  None: nothing."""
+        item = getattr(self.current[0], "item", None)
+        if passed is None or item is None:
+            return None
+        # `where` names the row by object identity of its condition, which is ambiguous when two rows share one expression
+        # object (an unconditional row's condition IS the dependency symbol): collect every reading and accept what the
+        # generator stripped if it is one of them
+        own = any(c is cond for _l, _h, c in getattr(item, "ranges", ())) or any(c is cond for _v, c in getattr(item, "defaults", ())) \
+            or any(c is cond for _t, c in getattr(item, "selects", ())) or any(c is cond for _t, _v, c in getattr(item, "sets", ()))
+        forced = []
+        for src in self.k.unique_defined_syms:
+            if any(t is item and c is cond for t, c in src.selects) or any(t is item and c is cond for t, _v, c in src.sets):
+                forced.append(src.direct_dep)
+        cands = forced + ([item.direct_dep] if own and hasattr(item, "direct_dep") else [])
+        for d in cands:
+            if d is passed or d == passed:
+                return d
+        return cands[0] if cands else passed
 
     def where(self, cond) -> str:
         node = self.current[0]
@@ -1075,6 +1264,7 @@ def check_target(item: dict, target: str, r: common.Result) -> None:
             if i in mism:
                 continue
             o = kl.expr_value(transplant(cond, k2))
+            deps = gen.expected[i]
             d = 2 if deps is None else kl.expr_value(transplant(deps, k2))
             s = 0 if shown is None else kl.expr_value(transplant(shown, k2))
             if min(o, d) != min(s, d):
@@ -1131,6 +1321,9 @@ def check_target(item: dict, target: str, r: common.Result) -> None:
         else:
             sig = {"kind": "undocumented", "site": "gen_kconfig_doc.py:ConfigTargetVisibility._visible", "item": where, "group": group}
             why = ""
+            if kind == "sym" and obj.choice is not None and obj.choice.name is None:
+                sig["choice"] = "unnamed"
+                why = "; it is a member of a choice without a name"
         r.violation(
             sig,
             f"[{group}, {target}] E = `{estr}`: {kind} {n} has a prompt and is visible with {witness[n]} but has no anchor `.. _CONFIG_{n}:`{why}",
@@ -1149,10 +1342,15 @@ def check_target(item: dict, target: str, r: common.Result) -> None:
         else:
             sig = {"kind": "cond_mismatch", "site": "gen_kconfig_doc.py:_prepare_cond", "where": where.split("@")[0], "group": group, "shown": "dropped" if shown is None else "kept"}
             why = ""
+        exp = gen.expected[i]
+        if deps is not None and not (exp is deps or exp == deps):
+            sig["stripped"] = "not_the_dependencies_of_the_option_the_row_is_about"
+            why += f"; the generator stripped `{describe(deps)}` but the row is read next to `{'-' if exp is None else describe(exp)}`"
+            deps = exp
         r.violation(
             sig,
             f"[{group}, {target}] E = `{estr}`: {where}: Kconfig condition `{describe(cond)}` is {'y' if o else 'n'} with {a} "
-            f"(stripped deps {'-' if deps is None else describe(deps)} = {'y' if d else 'n'}) but the documentation shows {shown_s}{why}",
+            f"(dependencies it is read modulo {'-' if deps is None else describe(deps)} = {'y' if d else 'n'}) but the documentation shows {shown_s}{why}",
             dict(case, assign=a, where=where),
         )
 
